@@ -218,35 +218,38 @@ End Cuckoo.
 (** ** Running: hash functors given as lookup tables, operations as (code, key): 1 insert, 2 erase, 3 find *)
 Definition h_tab (ht : list (list N)) (i : nat) (x : key) : N := nth (N.to_nat x) (nth i ht []) 0%N.
 
-(** per operation: result code (0 false, 1 true, 2 out of fuel), size(), log2 bucket_count, nodes dropped by the
-    resizes of this operation, keys of the universe [0..nkeys) now found, and the bucket tables *)
+(** per operation: result code (0 false, 1 true, 2 out of fuel, 3 capacity cap of the run reached), size(), log2
+    bucket_count, nodes dropped by the resizes of this operation, keys of the universe [0..nkeys) now found, and
+    the bucket tables.  An insert gets fuel [min fuel (lgcap + 1 - lg)]: the run never builds tables of more than
+    2^(lgcap+2) buckets; the run stops at the first operation that ends with code 2 or 3. *)
 Definition step_out : Type := (nat * nat * nat * list key * list key * tables)%type.
 
 Definition universe (n : nat) : list key := map N.of_nat (seq 0 n).
 
-Fixpoint run_ops (h : nat -> key -> N) (P : params) (fuel nkeys : nat) (t : tbl) (ops : list (nat * key))
+Fixpoint run_ops (h : nat -> key -> N) (P : params) (fuel lgcap nkeys : nat) (t : tbl) (ops : list (nat * key))
   : list step_out :=
   match ops with
   | [] => []
   | (c, x) :: ops' =>
     let '(code, t', dr) :=
       match c with
-      | 1 => match insert h P fuel t x with
+      | 1 => let f := Nat.min fuel (S lgcap - lg t) in
+             match insert h P f t x with
              | (Ok r, t', dr) => ((if r then 1 else 0), t', dr)
-             | (OutOfFuel, t', dr) => (2, t', dr)
+             | (OutOfFuel, t', dr) => ((if f <? fuel then 3 else 2), t', dr)
              end
       | 2 => let (r, t') := erase h P t x in ((if r then 1 else 0), t', [])
       | _ => ((if cfind h P t x then 1 else 0), t, [])
       end in
     (code, cnt t', lg t', dr, filter (cfind h P t') (universe nkeys), tabs t')
-      :: (match code with 2 => [] | _ => run_ops h P fuel nkeys t' ops' end)
+      :: (match code with 2 | 3 => [] | _ => run_ops h P fuel lgcap nkeys t' ops' end)
   end.
 
-(** cfg = [arity; probe-set size; effective threshold; ordered(0/1); log2 initial capacity; fuel] *)
+(** cfg = [arity; probe-set size; effective threshold; ordered(0/1); log2 initial capacity; fuel; lgcap] *)
 Definition run_case (cfg : list nat) (ht : list (list N)) (ops : list (nat * key)) : list step_out :=
   match cfg with
-  | [ka; ps; th; od; lg0; fuel] =>
+  | [ka; ps; th; od; lg0; fuel; lgcap] =>
     let P := mkParams ka ps th (Nat.eqb od 1) in
-    run_ops (h_tab ht) P fuel (length (nth 0 ht [])) (init P lg0) ops
+    run_ops (h_tab ht) P fuel lgcap (length (nth 0 ht [])) (init P lg0) ops
   | _ => []
   end.
